@@ -277,4 +277,60 @@ example : ghost Refine.Model.Comm.RefType.int 2
   = some [[⟨1, 0, [10, 11]⟩, ⟨4, 1, [40, 41]⟩, ⟨7, 2, [70, 71]⟩], [⟨4, 1, [40, 41]⟩, ⟨1, 0, [10, 11]⟩],
           [⟨7, 2, [70, 71]⟩, ⟨4, 1, [40, 41]⟩]] := by decide +kernel
 
+/-! ## counts -/
+
+theorem nodupB_nodup {α : Type} [DecidableEq α] : ∀ (l : List α), nodupB l = true → l.Nodup := by
+  intro l
+  induction l with
+  | nil => intro _; exact List.nodup_nil
+  | cons x xs ih =>
+    intro h
+    simp only [nodupB, Bool.and_eq_true, Bool.not_eq_true', List.contains_eq_mem, decide_eq_false_iff_not] at h
+    exact List.nodup_cons.mpr ⟨h.1, ih h.2⟩
+
+/-- **counts_sum**: in every world satisfying `distInv` the owned vertices of the ranks, summed, are pairwise
+    distinct global ids, the cells attributed to each rank by `cellOwner`, summed, are pairwise distinct and as
+    many as there are distinct cells; and once the ids are synchronised the summed owned-vertex count equals
+    `n_global` on every rank and the owned ids are exactly `0 … n_global-1`. -/
+theorem counts_sum (w : List RankState) (h : distInv w = true) :
+    (w.zipIdx.map fun sr => (sr.1.ownedNodes sr.2).length).sum = (ownedGlobals w).length ∧
+    (ownedGlobals w).Nodup ∧
+    (w.zipIdx.map fun sr => (sr.1.ownedCells sr.2).length).sum = (allCells w).length ∧
+    (ownedCellsAll w).Nodup ∧
+    (synced w = true →
+      (∀ s ∈ w, s.newN = ((w.zipIdx.map fun sr => (sr.1.ownedNodes sr.2).length).sum : Nat)) ∧
+      sortGlob (ownedGlobals w) = (List.range (ownedGlobals w).length).map fun (i : Nat) => (i : Int)) := by
+  have hc : clauseCounts w = true := by
+    unfold distInv at h
+    simp only [Bool.and_eq_true] at h
+    exact h.2
+  unfold clauseCounts at hc
+  simp only [Bool.and_eq_true, Bool.or_eq_true, Bool.not_eq_true', beq_iff_eq, List.all_eq_true] at hc
+  obtain ⟨⟨⟨hn1, hn2⟩, hlen⟩, hsync⟩ := hc
+  have hsum1 : (w.zipIdx.map fun sr => (sr.1.ownedNodes sr.2).length).sum = (ownedGlobals w).length := by
+    simp only [ownedGlobals, List.length_flatten, List.map_map]
+    congr 1; apply List.map_congr_left; intro sr _; simp
+  have hsum2 : (w.zipIdx.map fun sr => (sr.1.ownedCells sr.2).length).sum = (ownedCellsAll w).length := by
+    simp only [ownedCellsAll, List.length_flatten, List.map_map]
+    congr 1
+  refine ⟨hsum1, nodupB_nodup _ hn1, by rw [hsum2, hlen], nodupB_nodup _ hn2, ?_⟩
+  intro hs
+  rcases hsync with hns | hsy
+  · rw [hs] at hns; exact absurd hns (by simp)
+  · refine ⟨?_, hsy.2⟩
+    intro s hsm
+    rw [hsum1]
+    exact hsy.1 s hsm
+
+/-- non-vacuity: a 2-rank world (two tets sharing a face, vertices 0,1 owned by rank 0 and 2,3,4 by rank 1, both tets
+    stored on both ranks; a boundary triangle touching only rank 1's vertices is stored there only) satisfies `distInv` and is synchronised -/
+def exDist : List RankState :=
+  [{ nodes := [⟨0, 0, [10]⟩, ⟨1, 0, [11]⟩, ⟨2, 1, [12]⟩, ⟨3, 1, [13]⟩, ⟨4, 1, [14]⟩],
+     cells := [⟨8, [0, 1, 2, 3], 0⟩, ⟨8, [1, 2, 4, 3], 0⟩], oldN := 5, newN := 5, nUnused := 0 },
+   { nodes := [⟨2, 1, [12]⟩, ⟨3, 1, [13]⟩, ⟨4, 1, [14]⟩, ⟨0, 0, [10]⟩, ⟨1, 0, [11]⟩],
+     cells := [⟨8, [0, 1, 2, 3], 0⟩, ⟨8, [1, 2, 4, 3], 0⟩, ⟨3, [2, 3, 4], 7⟩], oldN := 5, newN := 5, nUnused := 0 }]
+
+example : distInv exDist = true ∧ synced exDist = true ∧ (ownedGlobals exDist).length = 5 ∧
+    (allCells exDist).length = 3 := by decide +kernel
+
 end Refine.Props.C06
